@@ -277,12 +277,12 @@ def parsePayloadCell (v : VersionIf) (kind : CellKind) (page : Buf) (index start
     else do
       -- `overflow` property: walk the dictionary from the first page
       let ovBuf ← (if hasOv then do
-          let mut buf := Buf.empty
           -- the walk visits the same chain (dict lookups by page number); for an acyclic chain
-          -- that is `chain` itself
-          for pg in chain do
-            let c ← v.getData pg.number Generated.OVERFLOW_HEADER_LENGTH (some pg.contentLength)
-            buf := buf.append c
+          -- that is `chain` itself.  The contents are concatenated into one array-backed buffer.
+          let arr ← chain.foldlM (fun (acc : Array Nat) pg => do
+              let c ← v.getData pg.number Generated.OVERFLOW_HEADER_LENGTH (some pg.contentLength)
+              pure (acc ++ c.toArray)) #[]
+          let buf := Buf.ofArray arr
           if (buf.size : Int) ≠ ovBytes then (.error .parseError : Py Buf) else pure buf
         else pure Buf.empty)
       -- digest of an overflowing cell covers the overflow content too (fix: commit)
